@@ -486,7 +486,7 @@ func digitGenCounted(w diyfp, requested_digits int, buffer []byte) (kappa int, b
 
 	if requested_digits == 0 {
 		rest := uint64(integrals)<<-one.e + fractionals
-		res = roundWeedCounted(buf, rest, uint64(divisor)<<-one.e, w_error, &kappa)
+		res = roundWeedCounted(buf[len(buffer):], rest, uint64(divisor)<<-one.e, w_error, &kappa)
 		return
 	}
 
@@ -512,7 +512,7 @@ func digitGenCounted(w diyfp, requested_digits int, buffer []byte) (kappa int, b
 	if requested_digits != 0 {
 		res = false
 	} else {
-		res = roundWeedCounted(buf, fractionals, one.f, w_error, &kappa)
+		res = roundWeedCounted(buf[len(buffer):], fractionals, one.f, w_error, &kappa)
 	}
 	return
 }
